@@ -420,6 +420,36 @@ PENDING_C14 = {'design_ref': 'DESIGN.md section 6 C14',
          'datagrams, at most one outstanding probe and it is the newest segment, data intact on a '
          'black-holing path (D1, KF1).'}
 
+CHECKS["C01"] = {'design_ref': 'DESIGN.md section 6 C01, sections 2.5, 7 (KF1)',
+ 'note': 'Trusted: Coq kernel, hand-written models (Conn/VSock.v per connection, Pair/Pair.v for two connections and the '
+         'network, Pair/DP.v for the data-path composition), extraction, driver/c_pair.ml (replays the network bookkeeping '
+         'to rebuild what was written and delivered), harness/src/comp_pair.rs (two real VirtualSockets, in-flight lists, '
+         'size blackhole, UtpMessage::deserialize on delivery), generators, the hash standing for the bytes read. No axioms. '
+         'PARTIAL: the refinement of the whole VirtualSocket::poll to data-path ops (poll_refines_dp) is not proved; the '
+         'prefix property of the pair is therefore a monitored consequence (c01_pair_guarded on every implementation '
+         'trace), not a theorem about the pair model. Not in the data-path system: FIN/EOF slots, the death path '
+         '(rx_enqueue_error), closing of the message channel. Known class KF1 reported through known_findings.json.',
+ 'technique': 'Coq proof (joint invariant of ring + segment table + network bag + receiver by induction over all op lists) '
+              '+ refutation witnesses by vm_compute + differential correspondence of two real connections against the pair '
+              'model + extracted prefix predicate / KF1 classifier on implementation traces',
+ 'text': 'PARTIAL. Theorems (all op lists, induction, no bound) about the DATA-PATH system = the real glue of '
+         'stream_dispatch.rs (send_data slicing, offset = seq - (last_consumed+1), add_remove, remove_up_to_ack + '
+         'truncate_front, enqueue, probe pops, grow) over a network bag with arbitrary loss / duplication / reordering / '
+         'delay, arbitrary ACK numbers and SACKs, arbitrary write / read chunking: (T1) every packet ever sent carries '
+         'g_written[off, off+len) of its segment, is numbered (isn + index) mod 2^16, the assignment index -> (offset, '
+         'length) tiles the written stream and never changes except that a probe pop removes its last entry; send_data\'s '
+         'panic / Bug exits are unreachable; the same slice statement for the connection model\'s send_data. (T2) an '
+         'accepted packet fills exactly one empty slot and appends exactly the bytes of the newly contiguous slots; a '
+         'rejected one (duplicate, beyond capacity) changes nothing; reads return the next bytes of the in-order stream. '
+         '(T3) c01_dp_prefix: under the guards d_clean (no KF1) and d_wrap (accepted packets within 2^16 - capacity behind '
+         '/ 2^16 ahead), what was read is a prefix of what was written. c01_dp_prefix_unguarded_refuted and '
+         'c01_pair_unguarded_refuted: without d_clean the model (and the real code: reproduced by the check) delivers '
+         'overlapping bytes (KF1: MTU probe popped after a copy reached the peer). c01_prefix_sys_partial: pair states '
+         'whose byte-carrying components form a guarded data-path state satisfy the property. Correspondence: the pair '
+         'model agrees with two real VirtualSockets on every observation of generated loss / dup / reorder / delay / '
+         'blackhole / EMSGSIZE / small-buffer / wrap / teardown schedules; c01_pair_guarded (extracted) holds on every '
+         'implementation trace, c01_pair_ok fails only inside the KF1 class.'}
+
 ALL = ["C%02d" % i for i in range(1, 20)]
 NOT_APPLICABLE = {p: "check not built yet at this commit (planned: DESIGN.md section 6); not claimed"
                   for p in ALL if p not in CHECKS}
